@@ -23,11 +23,23 @@ Theorem C18_never_caches_mismatch : forall (H : str -> str) p now c h srv o c' n
 Proof. exact never_caches_mismatch. Qed.
 Print Assumptions C18_never_caches_mismatch.
 
-(* offline: no request, cache untouched, and a cache miss is an error *)
+(* offline: no request, cache untouched, and a cache miss is an error -- the entry is absent, or it
+   exists but cannot be read (bytes that are not UTF-8, a directory at the entry path) *)
 Theorem C18_offline_never_fetches : forall (H : str -> str) now c ex srv o c' n,
-  fetch H Offline now c ex srv = (o, c', n) -> n = 0 /\ c' = c /\ (c = None -> o = OMiss).
+  fetch H Offline now c ex srv = (o, c', n) ->
+  n = 0 /\ c' = c /\ (c = None -> o = OMiss) /\
+  (forall e, c = Some e -> readable e = false -> o = OMiss).
 Proof. exact offline_never_fetches. Qed.
 Print Assumptions C18_offline_never_fetches.
+
+(* an unreadable entry is a cache miss under every policy: offline fails without a request and
+   leaves it alone, normal and refresh behave exactly like the network half *)
+Theorem C18_unreadable_entry_is_a_miss : forall (H : str -> str) now e ex srv, readable e = false ->
+  fetch H Offline now (Some e) ex srv = (OMiss, Some e, 0) /\
+  fetch H Normal now (Some e) ex srv = fetch_net H now (Some e) ex srv /\
+  fetch H Refresh now (Some e) ex srv = fetch_net H now (Some e) ex srv.
+Proof. exact unreadable_is_miss. Qed.
+Print Assumptions C18_unreadable_entry_is_a_miss.
 
 (* refresh: the answer and the request count (exactly one) do not depend on the cache *)
 Theorem C18_refresh_never_reads_cache : forall (H : str -> str) now c1 c2 ex srv,
@@ -41,9 +53,9 @@ Print Assumptions C18_refresh_never_reads_cache.
 Theorem C18_normal_respects_ttl : forall (H : str -> str) now e ex srv,
   (within_ttl now e = false ->
      fetch H Normal now (Some e) ex srv = fetch_net H now (Some e) ex srv) /\
-  (within_ttl now e = true -> ex = None ->
+  (within_ttl now e = true -> readable e = true -> ex = None ->
      fetch H Normal now (Some e) ex srv = (OContent (c_body e), Some e, 0)) /\
-  (within_ttl now e = true -> ex = Some (H (c_body e)) ->
+  (within_ttl now e = true -> readable e = true -> ex = Some (H (c_body e)) ->
      fetch H Normal now (Some e) ex srv = (OContent (c_body e), Some e, 0)).
 Proof. exact normal_respects_ttl. Qed.
 Print Assumptions C18_normal_respects_ttl.
@@ -62,12 +74,13 @@ Theorem C18_sequence_inv : forall (H : str -> str) h steps c outs c',
 Proof. exact sequence_inv_gen. Qed.
 Print Assumptions C18_sequence_inv.
 
-(* any history at all (hash or not): every content returned, and the final cache body, is the
-   complete body of the initial entry or a complete body some server answered in the history *)
+(* any history at all (hash or not): every content returned is the complete body of the initial
+   entry (a text file) or a complete body some server answered in the history; so is the final
+   cache body, unless the final entry is the unreadable entry the history began with *)
 Theorem C18_sequence_served : forall (H : str -> str) steps c0 outs c',
   run H steps c0 = (outs, c') ->
   Forall (fun on => forall s, fst on = OContent s -> served c0 steps s) outs /\
-  (forall e, c' = Some e -> served c0 steps (c_body e)).
+  (forall e, c' = Some e -> (readable e = false /\ c' = c0) \/ served c0 steps (c_body e)).
 Proof. exact sequence_served. Qed.
 Print Assumptions C18_sequence_served.
 
@@ -97,7 +110,7 @@ Print Assumptions C18_crash_with_hash_safe_plain_write.
 Theorem C18_crash_without_hash : forall (H : str -> str) cp p now c ex srv c1 p2 now2 ex2 srv2 s c2 n,
   fetch_crash H cp p now c ex srv = Some c1 ->
   fetch H p2 now2 c1 ex2 srv2 = (OContent s, c2, n) ->
-  (exists e, c = Some e /\ c_body e = s) \/ srv = SBody s \/ srv2 = SBody s.
+  (exists e, c = Some e /\ readable e = true /\ c_body e = s) \/ srv = SBody s \/ srv2 = SBody s.
 Proof. exact crash_without_hash. Qed.
 Print Assumptions C18_crash_without_hash.
 
@@ -118,14 +131,29 @@ Example C18_nonvacuous :
           {| st_policy := Normal;  st_now := 5001; st_expected := Some [1]; st_server := SBody [103] |};
           {| st_policy := Offline; st_now := 9999; st_expected := Some [1]; st_server := SFail 1 |};
           {| st_policy := Refresh; st_now := 10000; st_expected := None;    st_server := SBody [110] |} ]
-        (Some {| c_body := [111]; c_mtime := 1000 |})
+        (Some {| c_body := [111]; c_mtime := 1000; c_kind := EText |})
   = ([(OMismatch [9], 1); (OContent [103], 1); (OContent [103], 0); (OContent [110], 1)],
-     Some {| c_body := [110]; c_mtime := 10000 |}).
+     Some {| c_body := [110]; c_mtime := 10000; c_kind := EText |}).
 Proof. vm_compute. reflexivity. Qed.
 Print Assumptions C18_nonvacuous.
 
+(* non-vacuity of the unreadable states: a fresh entry torn inside a two-byte character (lead byte
+   195 only) -- offline fails without a request; the normal policy fetches and replaces it; a
+   directory at the entry path survives the (failing, ignored) cache write *)
+Example C18_unreadable_nonvacuous :
+  let H := fun b : str => b in
+  let torn := {| c_body := [35; 195]; c_mtime := 990; c_kind := EGarbled |} in
+  let dir := {| c_body := []; c_mtime := 990; c_kind := EDir |} in
+  fetch H Offline 1000 (Some torn) None (SBody [97]) = (OMiss, Some torn, 0) /\
+  fetch H Offline 1000 (Some dir) (Some [97]) (SBody [97]) = (OMiss, Some dir, 0) /\
+  fetch H Normal 1000 (Some torn) None (SBody [97])
+    = (OContent [97], Some {| c_body := [97]; c_mtime := 1000; c_kind := EText |}, 1) /\
+  fetch H Normal 1000 (Some dir) None (SBody [97]) = (OContent [97], Some dir, 1).
+Proof. vm_compute. repeat split; reflexivity. Qed.
+Print Assumptions C18_unreadable_nonvacuous.
+
 Example C18_crash_reaches_write :
   fetch_crash (fun b => b) AfterRename Normal 7 None None (SBody [97])
-  = Some (Some {| c_body := [97]; c_mtime := 7 |}).
+  = Some (Some {| c_body := [97]; c_mtime := 7; c_kind := EText |}).
 Proof. vm_compute. reflexivity. Qed.
 Print Assumptions C18_crash_reaches_write.
